@@ -389,13 +389,14 @@ PROPS = {
         theorems=["BluetoeModel.SmSelect.authenticated_iff_authenticated_exchange_iff",
                   "BluetoeModel.SmSelect.authenticated_iff_authenticated_exchange_partial",
                   "BluetoeModel.SmSelect.no_key_iff_not_completed", "BluetoeModel.SmSelect.legacy_status_correct",
-                  "BluetoeModel.SmSelect.lesc_status_correct_iff", "BluetoeModel.SmSelect.legacy_authenticated_sound"],
-        witnesses=["BluetoeModel.SmSelect.oob_flag_witness", "BluetoeModel.SmSelect.lesc_only_nc_witness",
+                  "BluetoeModel.SmSelect.lesc_status_correct_iff", "BluetoeModel.SmSelect.legacy_authenticated_sound",
+                  "BluetoeModel.SmSelect.lesc_only_status_correct", "BluetoeModel.SmSelect.lesc_only_nc_authenticated"],
+        witnesses=["BluetoeModel.SmSelect.oob_flag_witness",
                    "BluetoeModel.SmSelect.authenticated_iff_authenticated_exchange_full_witness"],
         run=run_c35,
         level="proof",
         technique="Lean 4 proof over all scenarios (configuration x request x central TK x user behaviour) about a model of selection + executed exchange + status function, partial with exact extent + differential correspondence on complete pairings against the real managers with real crypto",
-        level_text="Theorem authenticated_iff_authenticated_exchange_iff: for every existing configuration and every scenario the reported status is authenticated exactly after an exchange that authenticated the peer, unauthenticated exactly after a completed exchange that did not, no_key exactly when nothing completed — except in exactly two classes, both witnessed on the real code: combined manager + SC request that selects OOB / pass key entry (a Just Works exchange is executed and reported authenticated_key), LESC-only manager after a confirmed numeric comparison (reported unauthenticated_key). no_key_iff_not_completed holds at full strength. The model is tied to the code by driving complete pairings (legacy with 4 central TKs, LESC with 7 user behaviours) through the real managers.",
+        level_text="Theorem authenticated_iff_authenticated_exchange_iff: for every existing configuration and every scenario the reported status is authenticated exactly after an exchange that authenticated the peer, unauthenticated exactly after a completed exchange that did not, no_key exactly when nothing completed — except in exactly one class, witnessed on the real code: combined manager + SC request that selects OOB / pass key entry (a Just Works exchange is executed and reported authenticated_key). lesc_only_status_correct: full strength for lesc_security_manager (with fix smsel-01: authenticated_key after a confirmed numeric comparison; the code without the fix is reported as C35:lesc-only-numeric-comparison-confirmed-reported-unauthenticated). no_key_iff_not_completed holds at full strength. The model is tied to the code by driving complete pairings (legacy with 4 central TKs, LESC with 7 user behaviours) through the real managers.",
         level_note="Trusted: Lean kernel; ideal cryptography in the model (a confirm / DHKey check passes iff both sides used the same inputs) — the harness runs the real AES-128 / P-256 and the central re-checks Sconfirm, Cb, Eb and the resulting key (chk=1 on every completed pairing); test tool box constants (fixed pass key 19655, fixed nonces / key pair of tests/security_manager/test_sm.hpp); key size / key distribution fields fixed.",
         design_ref="§5 C35",
         assumptions=["pass key and OOB data are non-zero (a zero pass key is indistinguishable from Just Works)",
